@@ -238,6 +238,15 @@ class Shape:
                 return False
         return len(set(names)) != len(names)
 
+    def same_display_dup(self):
+        """a ** dict display with constant keys that repeats a key inside itself: {'a': 1, 'a': 2}"""
+        for k in self.kws:
+            if k[0] == '**' and k[1] == 'dict' and all(nk in ('interned', 'nonstr') for nk, _, _ in k[2]):
+                names = [n for nk, n, _ in k[2] if nk == 'interned']
+                if len(set(names)) != len(names):
+                    return True
+        return False
+
     def has_keywords(self):
         return any(k[0] == 'k' or k[2] or k[1] in BAD_MAP for k in self.kws)
 
